@@ -448,7 +448,7 @@ class Ctx:
                         continue
                     for inst in instantiate(q, bound):
                         s.add(inst)
-                s.set("timeout", 5000)
+                s.set("timeout", int(5000 * getattr(self, "load_scale", 1.0)))
                 r = s.check()
                 if r == z3.sat:
                     if covered:
@@ -469,8 +469,17 @@ class Ctx:
         quick = 1500 if self.qfacts else self.timeout_ms
         # quantified queries are unstable (the same query may take 0.1 s or > 20 s depending on
         # the solver's internal choices): several short attempts with different seeds first
-        attempts = [(quick, self.engine.seed)] + ([(2500, self.engine.seed + 17), (2500, self.engine.seed + 101)]
-                                                   if self.qfacts else [])
+        # wall-clock budgets are stretched when the machine is oversubscribed (other checks running on all cores), so
+        # that a verdict does not flip to `unknown` just because the solver got a fraction of a core
+        import os
+        try:
+            scale = min(12.0, max(1.0, os.getloadavg()[0] / max(1, os.cpu_count() or 1)))
+        except OSError:
+            scale = 1.0
+        self.load_scale = scale
+        quick = int(quick * scale)
+        attempts = [(quick, self.engine.seed)] + ([(int(2500 * scale), self.engine.seed + 17),
+                                                    (int(2500 * scale), self.engine.seed + 101)] if self.qfacts else [])
         for tmo, seed in attempts:
             s.push()
             try:
@@ -500,7 +509,7 @@ class Ctx:
             for q in self.qfacts:
                 s.add(q)
             s.add(z3.Not(goal))
-            s.set("timeout", max(self.timeout_ms, 20000))
+            s.set("timeout", int(max(self.timeout_ms, 20000) * scale))
             r = s.check()
             if r == z3.unsat:
                 return "valid", None, "z3"
